@@ -206,6 +206,11 @@ def judge(e, open_ids):
             return "agree_accept", ""
         if impl.startswith("error:address_too_"):
             return "over_reject", ""
+        if impl == "panic":
+            # everything fits, yet the generator's own i64/u64 arithmetic overflows
+            if "D3c" in open_ids and model == "panic:overflow":
+                return "known:D3c", f"generator panics ({e['message']}) on a definition whose addresses all fit"
+            return "violation", "generator panics on a definition whose addresses all fit"
         return "reject_other", ""
     if spec.startswith("fail:"):
         return "violation", f"spec evaluation failed: {spec}"
